@@ -65,13 +65,15 @@ def named_graph(rng):
 
 def distinct_keys(rng, n, style=None):
     """distinct non-negative dyadic keys (raptor's keys are rand()/RAND_MAX in [0,1])"""
-    style = style or rng.choice(["perm64", "perm64", "perm_int", "incr", "decr", "last_max"])
+    style = style or rng.choice(["perm64", "perm64", "perm_int", "incr", "decr", "last_max", "near_equal"])
     perm = list(range(n)); rng.shuffle(perm)
     if style == "incr": perm = list(range(n))
     if style == "decr": perm = list(range(n - 1, -1, -1))
     if style == "last_max" and n:
         i = perm.index(n - 1); perm[i], perm[n - 1] = perm[n - 1], perm[i]
     if style == "perm_int": return [Fraction(p) for p in perm]
+    if style == "near_equal":        # distinct doubles that agree to single precision (raptor's keys are doubles: rand()/RAND_MAX)
+        return [Fraction(1, 4) + Fraction(p + 1, 2 ** 40) for p in perm]
     return [Fraction(p + 1, 64) for p in perm]
 
 
@@ -471,14 +473,14 @@ def run(ctx):
             for (pk, Pl, first) in variants:
                 for tap in ((0, 1) if P <= 4 else (0,)): pcs.append(par_case(b, P, tap, pk, Pl, first, len(pcs)))
         run_par_batch(ctx, P, pcs, seqres)
-    if ctx.tier != "quick":
-        # several nodes: two full nodes of two ranks; every rank its own node
-        for P, ppn in ((4, 2), (2, 1), (3, 1), (4, 1), (5, 1)):
-            pcs = []
-            for b in bases[(P + ppn) % 3::3]:
-                pcs.append(par_case(b, P, 1, "default", 0, None, len(pcs)))
-                pcs.append(par_case(b, P, 1, "explicit", P, rand_partition(rng, b.n, P), len(pcs)))
-            run_par_batch(ctx, P, pcs, seqres, env={"PPN": str(ppn)}, tag="ppn%d" % ppn)
+    # several nodes: two full nodes of two ranks (quick: a sixth of the inputs); every rank its own node (thorough)
+    for P, ppn in ((4, 2),) + (((2, 1), (3, 1), (4, 1), (5, 1)) if ctx.tier != "quick" else ()):
+        pcs = []
+        stride = 3 if ctx.tier != "quick" else 6
+        for b in bases[(P + ppn) % stride::stride]:
+            pcs.append(par_case(b, P, 1, "default", 0, None, len(pcs)))
+            pcs.append(par_case(b, P, 1, "explicit", P, rand_partition(rng, b.n, P), len(pcs)))
+        run_par_batch(ctx, P, pcs, seqres, env={"PPN": str(ppn)}, tag="ppn%d" % ppn)
     # ---- exhaustive small graphs
     for chunk in exhaustive_chunks(ctx):
         sr = process_seq(ctx, chunk, tag="xseq")
